@@ -308,7 +308,8 @@ fn mpqs_modulus(n0: &Uint, use_mult: bool, npolys: usize) -> Tally {
             'comp: for (i, &p) in ps.iter().enumerate() {
                 for &q in &ps[i + 1..] {
                     let d = (p * q) as u128;
-                    if d % 4 != 3 || rm::W::from_digit((d * d) as u64) >= rm::w_from(&n) >> 2u32 {
+                    // D^2 < n and C = (B^2 - n)/D^2 within the 256 bits the polynomial stores
+                    if d % 4 != 3 || rm::W::from_digit((d * d) as u64) >= rm::w_from(&n) >> 2u32 || n.bits() > 230 {
                         continue;
                     }
                     let got = mpqs::sieve_for_polys(&n, d, 1);
